@@ -33,7 +33,7 @@ def run_shard(shard, tier, seed):
                               shrink_per_presig=2, child_moved=True)
     n = genhist.nadd_for(t, tier)
     m = 1 if tier == 'quick' else 2
-    cores = [genhist.core_forward_first(t, 2), genhist.core_additions(t, n), genhist.core_mixed(t, m, ('rm', 'rep', 'repa', 'fwd', 'str', 'set'))]
+    cores = [genhist.core_forward_first(t, 2), genhist.core_additions(t, n), genhist.with_final_str(genhist.core_additions(t, 2)), genhist.core_mixed(t, m, ('rm', 'rep', 'repa', 'fwd', 'str', 'set'))]
     halos = [('mixed', 60, 10), ('failure', 40, 10), ('removal', 40, 10), ('longrun', 6, 60), ('shortcut', 20, 8), ('guided', 40, 12), ('serialise', 30, 10)] if tier == 'quick' else [('mixed', 1000, 14), ('failure', 600, 12), ('removal', 600, 12), ('longrun', 40, 200), ('shortcut', 300, 10), ('guided', 800, 25), ('serialise', 400, 12)]
     return _histcheck.run(shard, tier, seed, PROPERTY, cores, halos, PROPS, shrink_per_presig=6)
 
